@@ -230,6 +230,15 @@ class C03(PropBase):
                 steps.append({"op": "unmarshal", "t": t, "mod": rng.choice(mods), "x": {rng.choice(["$iter", "$gen"]): elems}, "f12": ["one-shot"], "clean": None,
                               "oneshot_n": len(elems)})
                 continue
+            if 0.90 < r <= 0.94:
+                # one list object at two differently typed positions of the input: each position is converted by
+                # its own member type (what one conversion makes of it is not the other's input)
+                a, b = rng.sample(["int", "str", "float", "dec", "bool"], 2)
+                elems = {"$list": rng.sample(["1", "2", "30", "4", "55"], rng.randint(1, 3))}
+                first = {"k": "list", "a": {"k": a}} if rng.random() < 0.6 else {"k": "Sequence", "sp": "typing", "a": {"k": a}}
+                t = {"k": "tuple", "a": [first, {"k": "list", "a": {"k": b}}]}
+                steps.append({"op": "unmarshal", "t": t, "mod": rng.choice(mods), "x": {"$twice": elems, "as": "tuple"}, "f12": ["shared-sub-object"], "clean": None})
+                continue
             t, pairs = rng.choice(pool)
             if "twin" in sw and rng.random() < 0.3:
                 tw = hist.type_twins(rng, t)
